@@ -92,6 +92,9 @@ static void sweep_large(int tier, int rec, const char *prop, const char *statkey
             /* payload size: log-uniform, every third one above 256 KiB; then any residue */
             size_t P = (li % 3 == 0) ? (262144 + rnd(900000)) : ((size_t)1 << (10 + rnd(10))) + rnd(4096);
             if (c.k >= 10 && P > 400000) P = 262144 + rnd(100000);
+            /* at every seed: one payload just above 1 MiB for the small codes (thresholds of bulk paths sit at powers of two) */
+            if (li == 0 && c.k <= 5) P = ((size_t)1 << 20) + rnd(65536);
+            if (li == 3 && c.k <= 5 && tier) P = ((size_t)1 << 21) + rnd(65536);
             P = P / wb * wb + (size_t)wb * rnd(16);
             size_t len = (size_t)c.k * P - rnd((uint32_t)(c.k * wb));
             stripe_t s;
@@ -256,6 +259,7 @@ static void nsc_one(stripe_t *s, uint64_t gone, int dup) {
 void suite_nsc(int tier) {
     /* direct oracle, exhaustive over erasure sets up to one beyond the tolerance */
     sweep_all(tier, 1, 1, "C02", "nsc.sweep_sets");
+    sweep_large(tier, 1, "C02", "nsc.large");
     sweep_boundary(6, 1, "C02", "nsc.boundary_sets", NULL);
     /* sequences of calls on one instance (state kept between calls) */
     for (int n = 3; n <= (tier ? 8 : 7); n++) for (int k = 1; k < n - 1; k++) {
